@@ -36,7 +36,7 @@ def _prune(root, keep):
         return
     ds = [d for d in ds if os.path.isdir(d) and os.path.basename(d) != keep]
     ds.sort(key=lambda d: os.path.getmtime(d), reverse=True)
-    for d in ds[2:]:
+    for d in ds[8:]:  # several checks (sensitivity runs against patched copies) may be using their builds at the same time
         shutil.rmtree(d, ignore_errors=True)
 
 
